@@ -293,6 +293,19 @@ namespace
                 memcpy(arr, in.get(), sizeof arr);
                 return gstuffing(igris::buffer(arr), ctx);
             };
+            if (n == 0)
+            {
+                // the empty payload described by a buffer that points nowhere: a default-constructed igris::buffer, (nullptr, 0), the
+                // data()/size() of an empty std::vector - or by a real address with length 0
+                std::vector<char> none;
+                switch (cuts.size() % 4)
+                {
+                case 0: return gstuffing(igris::buffer(), ctx);
+                case 1: return gstuffing(igris::buffer((const char *)nullptr, (size_t)0), ctx);
+                case 2: return gstuffing(igris::buffer(none.data(), none.size()), ctx);
+                default: break;
+                }
+            }
             if (n && (uint8_t)p[0] % 2 == 0)
             {
                 if (n == 1) return via_array(std::integral_constant<size_t, 1>());
